@@ -58,6 +58,10 @@ def build_args(rng, entry, lengths=None):
         args.append(cat.gen_value(rng, spec, lengths.get(i)) if spec[0] == 'V' else cat.gen_value(rng, spec))
     kwargs = {k: (cat.gen_value(rng, spec, lengths.get(k)) if spec[0] == 'V' else cat.gen_value(rng, spec)) for k, spec in entry['kwargs'].items()}
     recv = cat.gen_value(rng, entry['recv']) if entry['recv'] else None
+    if 'same01' in entry['tags']:        # the second vector equals the first (a predicate on two vectors is trivially False otherwise)
+        args[1] = np.array(args[0], copy=True)
+    if 'neg01' in entry['tags']:
+        args[1] = -np.asarray(args[0])
     if 's01' in entry['tags']:
         args = [np.sort(np.random.default_rng(int(rng.integers(1 << 30))).random(len(a))) if isinstance(a, np.ndarray) else a for a in args]
     return args, kwargs, recv
@@ -172,11 +176,15 @@ def run_length(ctx, p):
         v = np.zeros(n)
     elif p.get('fill') == 'unit':
         v = np.eye(n)[0]
+    if p.get('zero_scalars'):       # the angle / scalar arguments at zero (the null rotation needs no axis -- the length is still wrong)
+        args = [0.0 if isinstance(a, float) else a for a in args]
     a1, k1 = setpos(args, kwargs, pos, gen.as_form(v, form) if n > 0 else ([] if form == 'list' else (() if form == 'tuple' else np.zeros((0,)))))
     o = attempt(e, a1, k1, recv_of(p))
     sig = dict(api=e['name'], pos=str(pos), n=n, form=form)
     if p.get('fill'):
         sig['fill'] = p['fill']
+    if p.get('zero_scalars'):
+        sig['zero_scalars'] = True
     ctx.judge('length', o[0] == 'exc', dict(sig, kind='wrong_length_accepted', got='None' if (o[0] == 'ok' and o[1] is None) else 'value'),
               lambda: '%s: argument %s with %d elements (%s) was accepted and returned %s' % (e['name'], pos, n, form, core.short(o[1].data if isinstance(getattr(o[1], "data", None), list) else o[1], 300)))
     ctx.cell('length', e['name'], str(pos), n)
@@ -332,7 +340,7 @@ def run_options(ctx, p):
     args_ = list(p['args'])
     sig = dict(api=e['name'], key=p['which'])
     if p.get('zero'):        # the other arguments at their degenerate values (zero axis / zero angle): the option is still checked
-        args_ = [np.zeros_like(np.asarray(a, dtype=np.float64)) if isinstance(a, (np.ndarray, list)) else a for a in args_]
+        args_ = [np.zeros_like(np.asarray(a, dtype=np.float64)) if isinstance(a, (np.ndarray, list)) else (0.0 if isinstance(a, float) else a) for a in args_]
         sig['zero_vector'] = True
     o = attempt(e, args_, kw, recv_of(p))
     ctx.judge('options', o[0] == 'exc', dict(sig, kind='unknown_option_accepted', value=p['value']),
@@ -464,6 +472,8 @@ def run(ctx):
                             drive(RUNNERS, ctx, 'length', dict(base, pos=ps, n=n, form=form))
                             if n > 0 and (i + n) % 3 == 0:
                                 drive(RUNNERS, ctx, 'length', dict(base, pos=ps, n=n, form=form, fill=['zeros', 'unit'][(i + n) % 2]))
+                            if n > 0 and (i + n) % 3 == 1 and any(isinstance(a_, float) for a_ in args):
+                                drive(RUNNERS, ctx, 'length', dict(base, pos=ps, n=n, form=form, zero_scalars=True))
             for ps in [i_ for i_, s_ in enumerate(e['args']) if s_[0] in ('A', 'S', 'SPOS')]:
                 v_ = int(rng.integers(1, 7)) * (1 if e['args'][ps][0] == 'SPOS' else int(gen.sign(rng)))
                 drive(RUNNERS, ctx, 'scalars', dict(base, pos=ps, value=v_))
